@@ -264,8 +264,8 @@ type c11Case struct {
 }
 
 func c11Hex(b []byte) string {
-	if len(b) > 2048 {
-		return fmt.Sprintf("%x...(%d bytes)", b[:2048], len(b))
+	if len(b) > 16384 {
+		return fmt.Sprintf("%x...(%d bytes)", b[:16384], len(b))
 	}
 	return fmt.Sprintf("%x", b)
 }
